@@ -590,7 +590,8 @@ class _VersionIndependentUnmarshaller:
             else:
                 co_varnames = tuple()
 
-            if self.version_tuple >= (2, 0):
+            # co_freevars and co_cellvars came with nested scopes in 2.1
+            if self.version_tuple >= (2, 1):
                 co_freevars = self.r_object(bytes_for_s=names_bytes_for_s)
                 co_cellvars = self.r_object(bytes_for_s=names_bytes_for_s)
 
